@@ -398,14 +398,73 @@ def measure_distribution(cases, lines):
             'element_category': dict(cat), 'events': dict(events)}
 
 
+GEN = ['gen_setcrew.json', 'gen_treeclear.json', 'gen_hashclear.json', 'gen_multiclear.json', 'gen_tableclear.json']
+
+
+def gen_crew_contract(ctx):
+    """T-gen for the callee side of the "assert_calls" used in gen_*.json: from the clang AST of /repo's current headers list,
+    for every crew class (pointer SetCrew, inline SetCrew, HashMultiMap::ValueCrew, DataTable::Crew), which member
+    functions BEGIN with MOMO_ASSERT (the `!pvIsNull()` / `!IsNull()` contract).  Written as Gallina lists into
+    coq/Gen_CrewContract.v; GenProofs.v proves from them that exactly the accessors used by the generated container
+    functions carry the assertion."""
+    sys.path.insert(0, os.path.join(ctx.root, 'tools'))
+    import cxx2coq
+    out = os.path.join(ctx.cdir, 'Gen_CrewContract.v')
+    try:
+        cfg = {'tu': os.path.join(ctx.pdir, 'inst.cpp'), 'filter': 'Crew', 'class': 'SetCrew', 'includes': [os.path.join(ctx.repo, 'include')]}
+        objs = cxx2coq.load_objs(cxx2coq.dump_ast(cfg, ctx.repo))
+        found = {}
+        def walk(o):
+            if o.get('kind') in ('CXXRecordDecl', 'ClassTemplatePartialSpecializationDecl') and o.get('name') in ('SetCrew', 'Crew', 'ValueCrew'):
+                meths = {}
+                for m in o.get('inner', []):
+                    if m.get('kind') == 'CXXMethodDecl':
+                        body = [y for y in m.get('inner', []) if y.get('kind') == 'CompoundStmt']
+                        if body:
+                            st = body[0].get('inner', [])
+                            meths.setdefault(m['name'], []).append(bool(st and cxx2coq.is_assert_stmt(st[0])))
+                if meths:
+                    key = o['name']
+                    if key == 'SetCrew':
+                        key = 'SetCrewInline' if 'pvGetContainerTraits' in meths else 'SetCrewPtr'
+                    found[key] = meths
+            for c in o.get('inner', []) or []:
+                if isinstance(c, dict): walk(c)
+        for o in objs: walk(o)
+        need = {'SetCrewPtr', 'SetCrewInline', 'ValueCrew', 'Crew'}
+        if set(found) != need:
+            raise cxx2coq.TranslationError('crew classes found in the AST: %s' % sorted(found))
+        lines = ['(* GENERATED by props/C14/prop.py (gen_crew_contract) from the clang AST of inst.cpp -- do not edit *)',
+                 'From Coq Require Import List String.', 'Import ListNotations.', 'Local Open Scope string_scope.', '']
+        for key in sorted(found):
+            asserting = sorted(n for n, v in found[key].items() if all(v))
+            other = sorted(n for n, v in found[key].items() if not all(v))
+            lines.append('(* member functions of %s whose first statement is MOMO_ASSERT(...) / which have no leading assertion *)' % key)
+            lines.append('Definition %s_asserting : list string := [%s].' % (key, '; '.join('"%s"' % n for n in asserting)))
+            lines.append('Definition %s_plain : list string := [%s].' % (key, '; '.join('"%s"' % n for n in other)))
+        txt = '\n'.join(lines) + '\n'
+        if not os.path.exists(out) or open(out).read() != txt:
+            open(out, 'w').write(txt)
+        ctx.tie_obligations.append({'name': 'translate Gen_CrewContract (leading assertions of the crew accessors)', 'ok': True})
+        return True
+    except Exception as e:
+        if os.path.exists(out): os.remove(out)
+        ctx.tie_obligations.append({'name': 'translate Gen_CrewContract', 'ok': False, 'error': str(e)[:400]})
+        return False
+
+
 def run(ctx):
     scale = 1 if ctx.quick() else 4
-    ctx.trusted += ['extraction: ExtrOcamlBasic only (no Extract Constant), OCaml 4.13.1, zarith for decimal I/O only',
+    ctx.trusted += ['tools/cxx2coq.py + clang 14 JSON AST (Clear / pvDestroy of TreeSet, HashSet, HashMultiMap, DataTable; SetCrew::pvIsNull; crew accessor contract)',
+                    'extraction: ExtrOcamlBasic only (no Extract Constant), OCaml 4.13.1, zarith for decimal I/O only',
                     'g++ 12 -std=c++17 -O0 with assertions, harness reaches private members via #define private public',
                     'harness/kit.h (manager identity checked at every Deallocate, element life-cycle registry)']
     ctx.assumptions += ['pointer crew (SetCrew<...,true>): stateful manager or version-keeping build, as in the suite',
                         'swap of unequal non-propagating allocators is outside the claim (undefined by the std rules; momo asserts)',
                         'block structure of a container is abstracted to a list of blocks (shape function); only ownership, manager identity and element events are modelled']
+    ok_regen = ctx.regen(GEN)
+    if not gen_crew_contract(ctx):
+        ctx.stage('regen', False, 'crew contract extraction failed')
     ctx.prove()
     ok_build = build_binaries(ctx)
     cases = gen_cases(ctx, scale)
